@@ -55,8 +55,19 @@ Ids(vals) == {vals[i][1] : i \in DOMAIN vals} \ {0}
 LiveOn(w, a) == {t \in DOMAIN w.alive : w.alive[t].a = a}
 LenOf(w, a)  == Cardinality(LiveOn(w, a))
 OwnedIds(w)  == UNION {Ids(w.alive[t].vals) : t \in DOMAIN w.alive}
-ZCount(w)    == Cardinality({t \in DOMAIN w.alive :
-                    \E i \in DOMAIN w.alive[t].vals : w.alive[t].vals[i] = <<0, 0>>})
+\* Column classes named by the trace header: zero-sized columns (a RefCell but no payload, counted
+\* by number only) and columns whose type has NO drop glue but an observable Clone (identity 0,
+\* a payload, Clone::clone calls counted): "cloned exactly once" must hold for them too.
+ZstNames == IF "zst" \in DOMAIN Decl THEN SeqSet(Decl.zst) ELSE {"Tz"}
+NdNames  == IF "nodrop" \in DOMAIN Decl THEN SeqSet(Decl.nodrop) ELSE {}
+ColNames(a) == Decl.archs[a + 1].cols
+HasZst(a)   == \E i \in DOMAIN ColNames(a) : ColNames(a)[i] \in ZstNames
+NdPer(a)    == Cardinality({i \in DOMAIN ColNames(a) : ColNames(a)[i] \in NdNames})
+ZCount(w)    == Cardinality({t \in DOMAIN w.alive : HasZst(w.alive[t].a)})
+RECURSIVE SumNd(_, _)
+SumNd(w, S) == IF S = {} THEN 0 ELSE LET t == CHOOSE t \in S : TRUE IN NdPer(w.alive[t].a) + SumNd(w, S \ {t})
+NCount(w)    == SumNd(w, DOMAIN w.alive)
+NCountOn(w, a) == NdPer(a) * Cardinality({t \in DOMAIN w.alive : w.alive[t].a = a})
 
 Zeros == [i \in 1..NA |-> 0]
 NewWorld(caps) ==
@@ -127,8 +138,10 @@ AnomTags(kind) ==
     CASE kind \in {"double_drop", "drop_of_unknown", "clone_of_non_live",
                    "drop_during_observation"}                         -> <<"C04", "C10", "C03">>
       [] kind \in {"read_of_non_live"}                                -> <<"C02", "C03", "C10", "C04">>
-      [] kind \in {"corrupt_Th", "corrupt_Tw", "misaligned_Tal"}       -> <<"C02">>
-      [] kind \in {"slice_len", "bslice_len", "iter_count", "iter_last"} -> <<"C06">>
+      [] kind \in {"corrupt_Th", "corrupt_Tw", "misaligned_Tal",
+                   "corrupt_Qb", "corrupt_Qc", "corrupt_Qd", "corrupt_Qh"} -> <<"C02">>
+      [] kind \in {"slice_len", "bslice_len", "iter_count", "iter_last", "iter_nth", "iter_mut_last",
+                   "iter_mut_positional_count", "iter_skip_take_order"} -> <<"C06">>
       [] kind \in {"listed_entity_not_viewable",
                    "listed_entity_not_borrowable"}                    -> <<"C01", "C06">>
       [] kind \in {"resolve_oob"}                                     -> <<"C03", "C01">>
@@ -360,9 +373,9 @@ ObserveWorld(w, o, keep, at) ==
 (* Loop bodies (ecs_iter!, ecs_iter_borrow!, ecs_iter_destroy!, finds):    *)
 (* one visit = one closure invocation, folded over the contract world.     *)
 (***************************************************************************)
-SetVals(vals, cols, newp) ==
+SetVals(a, vals, cols, newp) ==
     \* overwrite the payload of the given 1-based columns; zero-sized columns have no payload
-    [i \in DOMAIN vals |-> IF i \in cols /\ vals[i] # <<0, 0>> THEN <<vals[i][1], newp>> ELSE vals[i]]
+    [i \in DOMAIN vals |-> IF i \in cols /\ ColNames(a)[i] \notin ZstNames THEN <<vals[i][1], newp>> ELSE vals[i]]
 
 VisitStep(w, q, v, visited, setp, destroyAllowed, at) ==
     LET params == QParams(q)
@@ -383,7 +396,7 @@ VisitStep(w, q, v, visited, setp, destroyAllowed, at) ==
               THEN [w EXCEPT !.dirs = @ \cup {[d |-> v.d, t |-> t, a |-> a, born |-> w.rm[a + 1], bornc |-> w.cr[a + 1],
                                                  src |-> IF destroyAllowed THEN "iterd" ELSE "visit"]}] ELSE w
         w2 == IF okTok /\ setp # <<>> /\ rwCols # {}
-              THEN [w1 EXCEPT !.alive[t].vals = SetVals(@, rwCols, setp[1])] ELSE w1
+              THEN [w1 EXCEPT !.alive[t].vals = SetVals(a, @, rwCols, setp[1])] ELSE w1
         destroys == v.dec \in {"cd", "bd"}
         \* the documented overflow panic: the removal does not happen, the loop ends by unwinding
         ovf == destroys /\ okTok /\ OverflowDue(w2, t)
@@ -399,7 +412,7 @@ VisitStep(w, q, v, visited, setp, destroyAllowed, at) ==
         \cup If(destroys /\ ~destroyAllowed, {V(<<"TOOL">>, at, "destroy decision outside ecs_iter_destroy!")})
     IN [w |-> w3, v |-> viol, ovf |-> ovf,
         dropped |-> IF destroys /\ okTok /\ ~ovf THEN Ids(vals) ELSE {},
-        zdropped |-> IF destroys /\ okTok /\ ~ovf /\ (\E i \in DOMAIN vals : vals[i] = <<0, 0>>) THEN 1 ELSE 0]
+        zdropped |-> IF destroys /\ okTok /\ ~ovf /\ HasZst(a) THEN 1 ELSE 0]
 
 RECURSIVE FoldVisits(_, _, _, _, _, _, _, _)
 FoldVisits(w, q, visits, i, visited, setp, destroyAllowed, at) ==
